@@ -133,7 +133,9 @@ CLAIMED = {
             "Rfc3339.tla is an independent reader of RFC 3339 / RFC 9557 text written in TLA+ over byte values; TLC runs it "
             "on every printed Timestamp, Date, Time, DateTime and Zoned (all printer options; instants around every "
             "transition, folds, sub-minute LMT periods) and checks that the decoded value is the original, that the civil "
-            "time + zone + printed offset determine the instant, and that jiff's own re-parse returns an equal value.",
+            "time + zone + printed offset determine the instant, and that jiff's own re-parse returns an equal value. The "
+            "parsers are also run on texts generated from the grammar (not by jiff's printer) and must return what the "
+            "reader decodes; texts of a shape no printer option produces are reported as BEYOND-PROPERTY, never as violations.",
             "Trusted: TLC, harness, independent zone reader. Folds whose two offsets round to the same minute (a few "
             "seconds wide) cannot be told apart by any RFC 9557 text and are skipped.",
             "TLA+ text reader + zone semantics evaluated by TLC over implementation traces", "DESIGN.md §5 C09"),
@@ -143,7 +145,8 @@ CLAIMED = {
             "documented relations between a value and its friendly-format round trip per printer configuration; TLC "
             "evaluates them on every printed span and duration: ISO text must denote the original, friendly text must be "
             "accepted by the parser under every configuration, identical for lossless configurations, within one unit of the "
-            "last printed digit otherwise.",
+            "last printed digit otherwise. Both parsers are also run on grammar-generated texts against the readers "
+            "(shapes no printer configuration produces are reported as BEYOND-PROPERTY, never as violations).",
             "The friendly texts are read by the independent reader Friendly.tla (documented grammar). Known finding D12 (i64::MIN seconds) is listed in KNOWN_FINDINGS.txt.",
             "TLA+ text reader and round-trip relations evaluated by TLC over implementation traces", "DESIGN.md §5 C15"),
     "C16": ("model_checking",
